@@ -14,7 +14,7 @@ PROPS["C17"] = dict(
          "observations (every register field, every MMIO offset with a side-effect-free read, host API getters, memory "
          "digest, callback log) after every operation; half the histories start straight after construction. reset: dirty "
          "instance + Reset vs fresh instance + Reset. capi: C binding vs C++ facade. memcheck: the same modes under valgrind. "
-         "distinct_nontrivial = distinct (mode, phase, operation kind) executed and compared",
+         "One reset history in three runs on host-supplied memory; operation poke-vectored-request writes ipv/imv/ie into the register file and runs. distinct_nontrivial = distinct (mode, phase, operation kind) executed and compared",
     floors={Q: {"observations": 5000, "histories_straight_after_construction": 100, "dirtying_ops": 5000},
             T: {"observations": 200000, "histories_straight_after_construction": 5000, "dirtying_ops": 200000}},
     ready=True,
